@@ -348,5 +348,5 @@ def run(ctx):
     dictops.r_dictops(ctx)
     r_hash(ctx)
     n = r_opsem(ctx)
-    ctx.floor("operator methods", ctx.analysed.get("operator methods", 0), 26)
-    ctx.floor("operator x operand-kind cases", n, 100)
+    ctx.floor("operator methods", ctx.analysed.get("operator methods", 0), 20)
+    ctx.floor("operator x operand-kind cases", n, 80)
